@@ -368,14 +368,39 @@ shape_marked!(SN, SNTimeline { m: i16 = I16 } plain { k: f32 = F32 });
 shape_all!(S6, S6Timeline { a: f32 = F32, b: u8 = U8, c: i16 = I16, d: f64 = F64, e: u32 = U32, f: f32 = F32 });
 // the remaining integer types Lerp is implemented for
 shape_all!(S5, S5Timeline { p: i8 = I8, q: u16 = U16, r: i64 = I64, s: u64 = U64 });
+/// A remote proxy with a marked subset: the animated type is `ext::SR`, the derive sits on `SRProxy`, and only the
+/// fields marked on the proxy are animated (`y` and `j` are numeric, copyable — and excluded).
+pub mod ext {
+    #[derive(Clone, Debug, Default, PartialEq)]
+    pub struct SR {
+        pub x: f32,
+        pub y: f32,
+        pub k: i32,
+        pub j: u8,
+    }
+}
+pub use ext::SR;
+#[derive(Animate)]
+#[animate(remote = "SR")]
+#[allow(dead_code)]
+pub struct SRProxy {
+    #[animate]
+    x: f32,
+    y: f32,
+    #[animate]
+    k: i32,
+    j: u8,
+}
+shape_impl!(SR, SRProxy, SRTimeline, [x: f32 = F32, k: i32 = I32], [y: f32 = F32, j: u8 = U8]);
 /// Number of shapes `with_shape!` dispatches over.
-pub const N_SHAPES: usize = 7;
+pub const N_SHAPES: usize = 8;
 
 /// Dispatch helper: run a generic function over a shape chosen at run time.
 #[macro_export]
 macro_rules! with_shape {
     ($idx:expr, $f:ident ( $($arg:expr),* )) => {
-        match $idx % 7 {
+        match $idx % 8 {
+            7 => $f::<$crate::shapes::SR>($($arg),*),
             6 => $f::<$crate::shapes::S5>($($arg),*),
             0 => $f::<$crate::shapes::S2>($($arg),*),
             1 => $f::<$crate::shapes::S4>($($arg),*),
